@@ -285,6 +285,9 @@ func runC18(c *Ctx) {
 		"only while they do not exist yet (subDeregister is nil / active is false)", 3)
 	subEventsRegisteredOnce(c, "C18-D10")
 
+	c.Rule("C18-D11", "every occurrence reaches its handlers — the creation of a namespace by a client too (F47): at every call of nspStore.getOrCreate the `created` result leads to the NewNamespace handlers", 2)
+	newNamespaceHandlersRun(c, "C18-D11")
+
 	// ---------------------------------------------------------------- D9
 	c.Rule("C18-D9", "the handler set of an occurrence is fixed at the occurrence: every call of eventHandlerStore.getAll / handlerStore.getAll is made on the delivering goroutine, not inside a function literal that "+
 		"is started with `go` — taken later, the set misses a handler that was registered at the occurrence and removed before the goroutine ran, and includes (and consumes) a Once handler registered after it", 3)
